@@ -92,17 +92,32 @@ Speed2(s)       == s.vx * s.vx + s.vy * s.vy
 Theta(s)        == IF s.kind = "pm" THEN Heading(s.vx, s.vy) ELSE s.th
 
 (* ------------------------------ satisfaction ----------------------------------- *)
+(* fz = TRUE: the goal was turned by a quarter turn q*pi/2 (q # 0) inside the library: its corner / centre / end-point *)
+(* floats carry rounding noise (cos(pi/2) = 6e-17), so pure boundary contact and every interval end point is a band;   *)
+(* interior and exterior points must still be decided.  fz = FALSE: everything is exact (see module header).            *)
+InRectOpen(r, p) == r[1] < p[1] /\ p[1] < r[3] /\ r[2] < p[2] /\ p[2] < r[4]
+Dist2(c, p) == (p[1] - c[1]) * (p[1] - c[1]) + (p[2] - c[2]) * (p[2] - c[2])
+RegionFz(c, p) == CASE c.k = "rect" -> IF InRectOpen(c.r, p) THEN "T" ELSE IF InRect(c.r, p) THEN "EITHER" ELSE "F"
+                    [] c.k = "disc" -> IF Dist2(c.c, p) < c.rad * c.rad THEN "T" ELSE IF Dist2(c.c, p) = c.rad * c.rad THEN "EITHER" ELSE "F"
+                    [] c.k = "poly" -> IF \E i \in 1..Len(c.v) : OnSeg(c.v[i], Nxt(c.v, i), p) THEN "EITHER" ELSE B3(InPoly(c.v, p))
+                    [] c.k \in {"group", "lanelets"} ->
+                         IF \E i \in 1..Len(c.rs) : InRectOpen(c.rs[i], p) THEN "T"
+                         ELSE IF \E i \in 1..Len(c.rs) : InRect(c.rs[i], p) THEN "EITHER" ELSE "F"   \* also a shared edge: a gap may open
 SatVel(c, s) == IF s.kind = "pm"
                 THEN B3((c.lo <= 0 \/ c.lo * c.lo <= Speed2(s)) /\ (c.hi >= 0 /\ Speed2(s) <= c.hi * c.hi))  \* lo <= hypot <= hi
                 ELSE B3(c.lo <= s.v /\ s.v <= c.hi)
-Sat(a, g, s) == LET c == Con(g, a) IN
+SatF(a, g, s, fz) == LET c == Con(g, a) IN
                 IF c.k = "none" THEN "T"
                 ELSE CASE a = "time"        -> B3(c.lo <= s.t /\ s.t <= c.hi)
-                       [] a = "position"    -> B3(InRegion(c, s.p))
-                       [] a = "orientation" -> SatAngle(c.a, c.b, Theta(s))
+                       [] a = "position"    -> IF fz THEN RegionFz(c, s.p) ELSE B3(InRegion(c, s.p))
+                       [] a = "orientation" -> IF fz THEN (IF OnEnd(c.a, c.b, Theta(s)) THEN "EITHER" ELSE B3(AngleIn(c.a, c.b, Theta(s))))
+                                               ELSE SatAngle(c.a, c.b, Theta(s))
                        [] a = "velocity"    -> SatVel(c, s)
-SatGS(g, s)      == All3({Sat(a, g, s) : a \in Attrs})
-Reached(goal, s) == Any3({SatGS(goal[i], s) : i \in DOMAIN goal})
+Sat(a, g, s)           == SatF(a, g, s, FALSE)
+SatGSF(g, s, fz)       == All3({SatF(a, g, s, fz) : a \in Attrs})
+ReachedF(goal, s, fz)  == Any3({SatGSF(goal[i], s, fz) : i \in DOMAIN goal})
+SatGS(g, s)            == SatGSF(g, s, FALSE)
+Reached(goal, s)       == ReachedF(goal, s, FALSE)
 (* the same with attribute m declared undecided: used only to NAME the attribute that decides a wrong verdict *)
 SatGSM(g, s, m)      == All3({IF a = m /\ Con(g, a).k # "none" THEN "EITHER" ELSE Sat(a, g, s) : a \in Attrs})
 ReachedM(goal, s, m) == Any3({SatGSM(goal[i], s, m) : i \in DOMAIN goal})
@@ -111,8 +126,35 @@ Decider(goal, s) == LET D == Deciders(goal, s)  D2 == D \ {"time"} IN     \* tie
                     IF Cardinality(D) = 1 THEN CHOOSE m \in D : TRUE
                     ELSE IF Cardinality(D2) = 1 THEN CHOOSE m \in D2 : TRUE ELSE ""
 
-GoalReachedV(goal, traj)  == Any3({Reached(goal, traj[i]) : i \in DOMAIN traj})
-IndexOk(goal, traj, idx)  == idx \in 0..Len(traj) - 1 /\ Reached(goal, traj[idx + 1]) # "F"     \* 0-based index of a reaching state
+GoalReachedVF(goal, traj, fz) == Any3({ReachedF(goal, traj[i], fz) : i \in DOMAIN traj})
+IndexOkF(goal, traj, idx, fz) == idx \in 0..Len(traj) - 1 /\ ReachedF(goal, traj[idx + 1], fz) # "F"
+GoalReachedV(goal, traj)  == GoalReachedVF(goal, traj, FALSE)
+IndexOk(goal, traj, idx)  == IndexOkF(goal, traj, idx, FALSE)                                     \* 0-based index of a reaching state
+
+(* ------------------------------ lattice rigid motions (translate_rotate) -------- *)
+(* m = [t |-> <<TX, TY>> (doubled), q |-> quarter turns]:  p |-> R^q (p + t), "first translate, then rotate about the   *)
+(* origin".  Exact on the lattice; orientations move by 6q grid steps.                                                  *)
+RECURSIVE RotQ(_, _)
+RotQ(q, p)   == IF q % 4 = 0 THEN p ELSE RotQ((q % 4) - 1, <<-p[2], p[1]>>)
+Move(m, p)   == RotQ(m.q, <<p[1] + m.t[1], p[2] + m.t[2]>>)
+MoveRect(m, r) == LET a == Move(m, <<r[1], r[2]>>)  b == Move(m, <<r[3], r[4]>>)
+                  IN <<Min(a[1], b[1]), Min(a[2], b[2]), Max(a[1], b[1]), Max(a[2], b[2])>>       \* stays axis-parallel
+MoveRegion(m, c) == CASE c.k = "none" -> c
+                      [] c.k = "rect" -> Rect(MoveRect(m, c.r))
+                      [] c.k = "disc" -> Disc(Move(m, c.c), c.rad)
+                      [] c.k = "poly" -> Poly([i \in 1..Len(c.v) |-> Move(m, c.v[i])])
+                      [] c.k = "group" -> Group([i \in 1..Len(c.rs) |-> MoveRect(m, c.rs[i])])
+                      [] c.k = "lanelets" -> Lanelets([i \in 1..Len(c.rs) |-> MoveRect(m, c.rs[i])])
+MoveAng(m, c)  == IF c.k = "none" \/ m.q % 4 = 0 THEN c ELSE Ang(c.a + 6 * (m.q % 4), c.b + 6 * (m.q % 4))
+MoveGS(m, g)   == GS(g.t, MoveRegion(m, g.pos), MoveAng(m, g.ori), g.vel)
+MoveGoal(goal, m) == [i \in DOMAIN goal |-> MoveGS(m, goal[i])]
+MoveState(s, m) == IF s.kind = "pm" THEN LET v == RotQ(m.q, <<s.vx, s.vy>>) IN PM(s.t, Move(m, s.p), v[1], v[2])
+                   ELSE [s EXCEPT !.p = Move(m, s.p), !.th = IF s.thint = 1 THEN @ ELSE @ + 6 * (m.q % 4)]
+Fz(m) == m.q % 4 # 0
+MovedReached(goal, m, s)        == ReachedF(MoveGoal(goal, m), s, Fz(m))       \* expected verdict after goal.translate_rotate(m)
+MovedGoalReachedV(goal, m, tr)  == GoalReachedVF(MoveGoal(goal, m), tr, Fz(m))
+MovedIndexOk(goal, m, tr, idx)  == IndexOkF(MoveGoal(goal, m), tr, idx, Fz(m))
+AdmMove(m) == m.q \in -3..3
 
 (* ------------------------------ admissible inputs (statement's quantifier) ------ *)
 AdmIv(c)  == c.k = "none" \/ (c.k = "iv" /\ c.lo <= c.hi)
@@ -136,6 +178,11 @@ LawAngleClosed(a, b, th) == AngleIn(a, b, th) <=> AngleLit(a, b, th)
 LawAngleTurn(a, b, th)   == AngleIn(a, b, th + Turn) <=> AngleIn(a, b, th)
 LawBandOnlyOnEnds(goal, s) == Reached(goal, s) = "EITHER" =>
                                 \E i \in DOMAIN goal : goal[i].ori.k = "ang" /\ OnEnd(goal[i].ori.a, goal[i].ori.b, Theta(s))
+(* rigid motions preserve membership: moving goal and state together changes nothing (exactly for q = 0, up to bands else) *)
+LawRigid(goal, s, m) == LET x == Reached(goal, s)  y == MovedReached(goal, m, MoveState(s, m)) IN
+                        \/ (s.kind = "ks" /\ s.thint = 1 /\ Fz(m))                 \* the int 0 is not on the turned grid: excluded
+                        \/ (s.kind = "pm" /\ s.vx = 0 /\ s.vy = 0 /\ Fz(m))        \* atan2(0, 0) = 0 does not turn either
+                        \/ (Compat(x, y) /\ (~Fz(m) => x = y))
 LawHeading == \A i \in 1..Len(Dirs) : \A m \in 1..2 :
                  LET v == Dirs[i].d IN Heading(m * v[1], m * v[2]) = Dirs[i].h /\ IsCompass(m * v[1], m * v[2])
 =================================================================================
